@@ -17,6 +17,9 @@ UN = {'neg': 'neg', 'abs': 'abs', 'sign': 'sign', 'sin': 'sin', 'cos': 'cos', 't
 # operations whose derivative rule is NOT in the model: tied only when the operand carries no derivative
 NO_DERIV_RULE = {'tan', 'arctan', 'arcsin', 'arccos', 'arcsin_nc', 'arccos_nc'}
 BIN = {'add', 'sub', 'mul', 'div', 'stack'}
+NUMOPS = {'mulc', 'rmulc', 'addc', 'subc', 'rsubc', 'divc', 'rdivc'}
+BIN2 = {'mod', 'floordiv', 'arctan2'}
+MWK = {'mw_lt': 'lt', 'mw_le': 'le', 'mw_gt': 'gt', 'mw_ge': 'ge', 'mw_eq': 'eq', 'mw_ne': 'ne'}
 RED = {'sum', 'mean', 'max', 'min', 'argmax', 'argmin', 'median'}
 CMP = {'eq', 'ne', 'lt', 'le', 'gt', 'ge'}
 TABLES = {'sin': ['sin', 'cos'], 'cos': ['sin', 'cos'], 'tan': ['tan'], 'arctan': ['arctan'], 'log': ['log'],
@@ -75,17 +78,50 @@ def request_prog(prog, env, variant):
     """statement sequences: an in-place operator is the pure operator plus rebinding (`x /= y` is `x := x * y.reciprocal()`,
     qube.py __itruediv__); the real statements are executed on the shared objects while the request is built"""
     try:
-        go, finish, objs = _ctx(env, variant)
+        nlets = sum(1 for st in prog if st[0] == 'let')
+        go, finish, objs = _ctx(env, variant, reserve=nlets)
         inexact = set()
         sts = []
         for st in prog:
-            if st[0] == 'query':
+            if st[0] == 'let':
+                # b = f(a): a new name; only derivations that do not alias a (values, mask and derivatives are new
+                # objects - the model has value semantics; the aliasing ones are findings KF-C03-9/-10)
+                f = st[1]
+                src = objs[f[2][1]] if f[2][0] == 'v' else None
+                if f[0] not in LET_OK and not (f[0] in ('addc', 'subc') and src is not None and not src._derivs_):
+                    raise Unsupported()
+                t, r = go(f)
+                if r is None:
+                    raise Unsupported()
+                sts.append(['assign', len(objs), t])
+                objs.append(r)
+            elif st[0] == 'query':
                 go.inexact = inexact
                 t, _ = go(st[1])
                 sts.append(['query', t])
+            elif st[0] == 'set':
+                i, pattern, it, rhs = st[1], st[2], st[3], st[4]
+                if pattern != 'i' or not (isinstance(it, list) and it[0] == 'v' and it[1] < len(env) and env[it[1]]['t'] == 'I'):
+                    raise Unsupported()
+                if not (isinstance(rhs, list) and rhs[0] == 'v' and rhs[1] < len(env) and env[rhs[1]]['t'] == 'F') or i >= len(objs):
+                    raise Unsupported()
+                x, y = objs[i], objs[rhs[1]]
+                if x._derivs_ or y._derivs_ or not x._shape_ or x._shape_[0] == 0:
+                    raise Unsupported()
+                rt, _ = go(rhs)
+                go(['v', i])
+                iv = go.index_slot(it[1])
+                sts.append(['setitem', i, iv, rt])
+                with warnings.catch_warnings():
+                    warnings.simplefilter('ignore')
+                    try:
+                        x[objs[it[1]]] = y
+                    except Exception:
+                        pass
             elif st[0] == 'iop' and st[1] in IOP:
                 i, rhs = st[2], st[3]
-                if not (isinstance(rhs, list) and rhs[0] == 'v') or env[rhs[1]]['t'] != 'F' or rhs[1] == i:
+                if not (isinstance(rhs, list) and rhs[0] == 'v') or rhs[1] >= len(env) or env[rhs[1]]['t'] != 'F' or rhs[1] == i \
+                        or i >= len(objs):
                     raise Unsupported()
                 x, y = objs[i], objs[rhs[1]]
                 if np_bcast(list(x._shape_), list(y._shape_)) != list(x._shape_):
@@ -112,9 +148,15 @@ def request_prog(prog, env, variant):
         return None
 
 
-def _ctx(env, variant):
+LET_OK = {'mulc', 'rmulc', 'divc', 'neg', 'abs', 'sin', 'cos', 'sqrt', 'copy', 'sign'}
+
+
+def _ctx(env, variant, reserve=0):
     objs = [O.build(l, variant) for l in env]
     tables = {}
+    tables2 = {}
+    consts = []
+    extra = []          # number operands, sent as shapeless unmasked objects after the leaves
     idx_ids, idxs, ams = {}, [], []
 
     def leaf_ok(l):
@@ -126,14 +168,67 @@ def _ctx(env, variant):
         for fn in fns:
             t = tables.setdefault(fn, {})
             with np.errstate(all='ignore'):
-                for x in list(vals) + CONSTS:
+                for x in list(vals) + CONSTS + ([-0.0] if np.any(vals == 0) else []):
                     x = float(x)
                     if bits(x) not in t:
                         t[bits(x)] = bits(NPFN[fn](np.float64(x)))
 
+    def constobj(c):
+        b = bits(float(c))
+        if b not in extra:
+            extra.append(b)
+        return len(env) + reserve + extra.index(b)
+
+    def const(x):
+        b = bits(float(x))
+        if b not in consts:
+            consts.append(b)
+        return consts.index(b)
+
+    def tab2(fn, A, B, python=False):
+        t = tables2.setdefault(fn, {})
+        A = np.asarray(A, dtype=float); B = np.asarray(B, dtype=float)
+        try:
+            A, B = np.broadcast_arrays(A, B)
+        except ValueError:
+            return
+        with np.errstate(all='ignore'):
+            pairs = []
+            for a, b in zip(A.ravel(), B.ravel()):
+                a, b = float(a), float(b)
+                pairs.append((a, b))
+                if a == 0 or b == 0:          # both signed zeros (the sign of a zero may differ underneath a mask)
+                    pairs += [(sa * a if a == 0 else a, sb * b if b == 0 else b) for sa in (1., -1.) for sb in (1., -1.)]
+            for a, b in pairs:
+                key = (bits(a), bits(b))
+                if key in t:
+                    continue
+                if fn == 'pow' and python:
+                    try:
+                        z = a ** b
+                        z = float(z) if isinstance(z, float) else float('nan')
+                    except Exception:
+                        z = float('nan')
+                else:
+                    z = float({'fdiv': np.floor_divide, 'fmod': np.remainder, 'pow': np.power, 'atan2': np.arctan2}[fn](
+                        np.float64(a), np.float64(b)))
+                t[key] = bits(z)
+
+    def index_slot(key):
+        il = env[key]
+        if key not in idx_ids:
+            idx_ids[key] = len(idxs)
+            data = il['vals'] if variant == 'A' else il['alt']
+            idxs.append([il['shape'], [int(v) for v in data], mask_sx(il['mask'], il['shape'])])
+        return idx_ids[key]
+
     def go(node):
         """returns (sx tree, real object or None if raised)"""
         if node[0] == 'v':
+            if node[1] >= len(env):
+                if node[1] >= len(objs):
+                    raise Unsupported()
+                return ['v', node[1]], objs[node[1]]
             l = env[node[1]]
             if not leaf_ok(l):
                 raise Unsupported()
@@ -149,16 +244,81 @@ def _ctx(env, variant):
                 raise Unsupported()
             if name in ('sqrt', 'log', 'exp_c', 'recip') and not x._shape_ and x._derivs_ and not KF2_REPAIRED:
                 raise Unsupported()          # known finding KF-C03-2: shapeless mask_where(replace=) drops derivatives
-            if name == 'pickle' and any(
-                    not np.array_equal(np.broadcast_to(d._mask_, x._shape_), np.broadcast_to(x._mask_, x._shape_))
-                    for d in x._derivs_.values()):
-                # the pickler stores a derivative under its OBJECT's mask: elements masked in the derivative only come
-                # back unmasked (a round-trip matter of C11, identical in both runs); the model pickles each array under
-                # its own mask, so such operands are not tied
-                raise Unsupported()
             if name in TABLES:
                 tabulate(TABLES[name], x)
             return ['un', UN[name], t], run(name, params, [x])
+        if name in ('sign_o', 'frac', 'pow', 'clip', 'mask_where_eq_o') or name in MWK:
+            t, x = go(node[2])
+            if x is not None and (not isinstance(x, Scalar) or x._units_ is not None or not x.is_float()):
+                raise Unsupported()
+            if name == 'sign_o':
+                if params[1]:
+                    raise Unsupported()
+                st = ['un', 'sign' if params[0] else 'signNz', t]
+            elif name == 'frac':
+                if x is not None:
+                    tab2('fmod', x._values_, 1.)
+                st = ['un', 'frac', t]
+            elif name == 'pow':
+                e = params[0]
+                easy = {0: 'pow0', 2: 'pow2', 3: 'pow3', 4: 'pow4', -1: 'recip'}
+                if x is not None and e in (-1, 0.5, -0.5) and not x._shape_ and x._derivs_ and not KF2_REPAIRED:
+                    raise Unsupported()
+                if isinstance(e, int) and not isinstance(e, bool) and e == 1:
+                    st = t
+                elif isinstance(e, int) and not isinstance(e, bool) and e in easy:
+                    st = ['un', easy[e], t]
+                elif isinstance(e, float) and e == 0.5:
+                    st = ['un', 'sqrt', t]
+                elif isinstance(e, float) and e == -0.5:
+                    st = ['un', 'recip', ['un', 'sqrt', t]]
+                else:
+                    if x is not None:
+                        py = not x._shape_
+                        tab2('pow', x._values_, float(e), python=py)
+                        tab2('pow', x._values_, float(e) - 1., python=py)
+                    st = ['powG', const(e), const(float(e) - 1.), t]
+            elif name == 'clip':
+                lo, hi, rm = params
+                st = ['clip', const(lo), const(hi), bool(rm), t]
+            else:
+                kind = MWK.get(name, 'eq')
+                lim, repl, rm = params
+                st = ['mw', kind, const(lim), '-' if repl is None else const(repl), bool(rm), t]
+            return st, (None if x is None else run(name, params, [x]))
+        if name in NUMOPS:
+            t, x = go(node[2])
+            if x is not None and (not isinstance(x, Scalar) or x._units_ is not None or not x.is_float()):
+                raise Unsupported()
+            c = params[0]
+            if isinstance(c, bool) or not isinstance(c, (int, float)):
+                raise Unsupported()
+            if name == 'divc' and x is not None and x._derivs_:
+                raise Unsupported()          # `deriv / c` (one rounding) is not `deriv * (1/c)` of the Scalar division
+            if name == 'rdivc' and x is not None and not x._shape_ and x._derivs_ and not KF2_REPAIRED:
+                raise Unsupported()
+            ct = ['v', constobj(c)]
+            st = {'mulc': ['bin', 'mul', t, ct], 'rmulc': ['bin', 'mul', t, ct], 'addc': ['bin', 'add', t, ct],
+                  'subc': ['bin', 'sub', t, ct], 'rsubc': ['bin', 'sub', ct, t], 'divc': ['bin', 'div', t, ct],
+                  'rdivc': ['bin', 'mul', ['un', 'recip', t], ct]}[name]
+            return st, (None if x is None else run(name, params, [x]))
+        if name in BIN2:
+            t1, a = go(node[2])
+            t2, b = go(node[3])
+            if a is None or b is None:
+                return ['bin', name, t1, t2], None
+            for q in (a, b):
+                if not isinstance(q, Scalar) or q._units_ is not None or not q.is_float():
+                    raise Unsupported()
+            if name in ('mod', 'floordiv'):
+                if not b._shape_ and b._derivs_ and not KF2_REPAIRED:
+                    raise Unsupported()
+                fn = 'fmod' if name == 'mod' else 'fdiv'
+                tab2(fn, a._values_, np.where(np.asarray(b._values_) == 0, 1., b._values_))
+                tab2(fn, a._values_, 1.)
+            else:
+                tab2('atan2', a._values_, b._values_)
+            return ['bin', name, t1, t2], run(name, params, [a, b])
         if name in BIN:
             t1, a = go(node[2])
             t2, b = go(node[3])
@@ -201,7 +361,7 @@ def _ctx(env, variant):
             if name in ('argmax', 'argmin') and ax is not None and not isinstance(ax, int):
                 raise Unsupported()
             if name in ('sum', 'mean', 'median') and int(np.prod(shape)) >= 8 and (
-                    node[2][0] != 'v' or node[2][1] in getattr(go, 'inexact', ())):
+                    node[2][0] != 'v' or node[2][1] >= len(env) or node[2][1] in getattr(go, 'inexact', ())):
                 raise Unsupported()          # NumPy's pairwise summation order is not modelled for inexact operands
             return ['red', name, axes, t], run(name, params, [x])
         if name == 'getitem':
@@ -212,10 +372,7 @@ def _ctx(env, variant):
             if x is not None and (not x._shape_ or x._shape_[0] == 0):
                 raise Unsupported()
             key = node[3][1]
-            if key not in idx_ids:
-                idx_ids[key] = len(idxs)
-                data = il['vals'] if variant == 'A' else il['alt']
-                idxs.append([il['shape'], [int(v) for v in data], mask_sx(il['mask'], il['shape'])])
+            index_slot(key)
             r = None if x is None else run(name, params, [x, objs[key]])
             return ['index', t, idx_ids[key]], r
         if name == 'shrink_unshrink':
@@ -253,9 +410,16 @@ def _ctx(env, variant):
                 dd = dl['vals'] if variant == 'A' else dl['alt']
                 d = [[bits(v) for v in dd], mask_sx(dl['mask'], dl['shape'])]
             obj_sx.append([l['shape'], [bits(v) for v in data], mask_sx(l['mask'], l['shape']), d])
+        for _ in range(reserve):
+            obj_sx.append([[], [bits(1.0)], True, '-'])       # slots of the names bound by `let`
+        for b in extra:
+            obj_sx.append([[], [b], False, '-'])
         tb = [[fn] + [[x, y] for x, y in sorted(rows.items())] for fn, rows in sorted(tables.items())]
-        return ['c03', sx_tree, ['objs'] + obj_sx, ['idxs'] + idxs, ['ams'] + ams, ['tables'] + tb, bits(EXP_CUTOFF)]
+        tb2 = [[fn] + [[x, y, z] for (x, y), z in sorted(rows.items())] for fn, rows in sorted(tables2.items())]
+        return ['c03', sx_tree, ['objs'] + obj_sx, ['idxs'] + idxs, ['ams'] + ams, ['tables'] + tb, ['tables2'] + tb2,
+                ['consts'] + list(consts), bits(EXP_CUTOFF)]
 
+    go.index_slot = index_slot
     return go, finish, objs
 
 
